@@ -167,6 +167,40 @@ fn sub_layer_scenarios(ctx: &Ctx, out: &mut Outcome, n: u64, secs: f64) {
             let scene = Scene { w, h, init, ops };
             return run_scene(&scene, st, &ctx.known, MonitorOpts::default(), want);
         }
+        // one group right after another of the same size somewhere else (and a third where the first was): a layer
+        // starts transparent whatever the layer before it held
+        if i % 25 == 13 {
+            let (w, h) = (rng.int(8, 20) as i32, rng.int(8, 20) as i32);
+            let n = (w * h) as usize;
+            let init = if rng.chance(0.3) { vec![0; n] } else { canary(&mut rng, n) };
+            let (aw, ah) = (rng.int(2, w as i64 - 3) as i32, rng.int(2, h as i64 - 3) as i32);
+            let mut ops: Vec<Op> = Vec::new();
+            let mut at = (rng.int(0, (w - aw) as i64) as i32, rng.int(0, (h - ah) as i64) as i32);
+            let first = at;
+            for round in 0..rng.int(2, 4) {
+                ops.push(Op::PushClipRect(at.0, at.1, at.0 + aw, at.1 + ah));
+                ops.push(Op::PushLayer(*rng.pick(&[1.0f32, 0.5, 0.75]), if rng.chance(0.6) { BlendMode::SrcOver } else { random_mode(&mut rng) }));
+                // something in a corner of the layer, or all over it, or nothing at all
+                match rng.below(4) {
+                    0 => {}
+                    1 => ops.push(Op::FillRect(at.0 as f32, at.1 as f32, aw as f32, ah as f32, SrcSpec::Solid(premul_pixel(&mut rng) | 0xff000000), o(BlendMode::SrcOver, 1.))),
+                    2 => ops.push(Op::FillRect(at.0 as f32 + rng.int(0, aw as i64 - 1) as f32, at.1 as f32 + rng.int(0, ah as i64 - 1) as f32, 1.5, 1.5, SrcSpec::Solid(premul_pixel(&mut rng)), o(BlendMode::SrcOver, 1.))),
+                    _ => ops.push(Op::Fill(small_shape(&mut rng, w, h), SrcSpec::Solid(premul_pixel(&mut rng)), o(random_mode(&mut rng), random_alpha(&mut rng)))),
+                }
+                ops.push(Op::PopLayer);
+                ops.push(Op::PopClip);
+                at = if round == 1 && rng.chance(0.5) {
+                    first
+                } else if rng.chance(0.5) {
+                    ((at.0 + rng.int(-1, 1) as i32).clamp(0, w - aw), (at.1 + rng.int(-1, 1) as i32).clamp(0, h - ah))
+                } else {
+                    (rng.int(0, (w - aw) as i64) as i32, rng.int(0, (h - ah) as i64) as i32)
+                };
+            }
+            st.add("scenarios_with_equal_sized_groups_one_after_another", 1);
+            let scene = Scene { w, h, init, ops };
+            return run_scene(&scene, st, &ctx.known, MonitorOpts::default(), want);
+        }
         let large = i % 400 == 7;
         // (one surface of more than 2^20 pixels per run)
         let very_large = i % 2000 == 407;
@@ -675,6 +709,79 @@ fn sub_surface_blits_validity(ctx: &Ctx, out: &mut Outcome, n: u64) {
     });
 }
 
+/// pixels written through the word or byte view between drawing calls: whatever a target believes about its own
+/// pixels (all opaque after an opaque clear, say) stops being true there
+fn sub_raw_writes_between_calls(ctx: &Ctx, out: &mut Outcome, n: u64) {
+    run_cases(ctx, out, SubSpec { name: "raw_writes_between_calls", cases: n, exhaustive: false, max_secs: 120. }, |i, want, st| {
+        let mut rng = ctx.rng("raw_writes_between_calls", i);
+        let (w, h) = (rng.int(2, 14) as i32, rng.int(2, 10) as i32);
+        let n = (w * h) as usize;
+        let fix = |p: u32| { let c = ch(p); let a = c[0]; pack(a as u32, c[1].min(a) as u32, c[2].min(a) as u32, c[3].min(a) as u32) };
+        let mut dt = DrawTarget::new(w, h);
+        let mut log: Vec<String> = Vec::new();
+        let mut co = CaseOut::default();
+        for round in 0..rng.int(1, 3) {
+            if rng.chance(0.7) {
+                let c = if rng.chance(0.7) { premul_pixel(&mut rng) | 0xff000000 } else { fix(premul_pixel(&mut rng)) };
+                dt.clear(solid(fix(c)));
+                log.push(format!("clear({})", hex(fix(c))));
+            }
+            if rng.chance(0.4) {
+                dt.fill_rect(rng.int(0, w as i64 - 1) as f32, 0., 2., h as f32, &Source::Solid(solid(premul_pixel(&mut rng) | 0xff000000)), &opts(BlendMode::SrcOver, 1., true));
+                log.push("fill_rect(opaque, SrcOver)".to_string());
+            }
+            // valid pixels of every kind, through either view
+            let spots: Vec<(usize, u32)> = (0..rng.int(1, n as i64)).map(|_| (rng.below(n as u64) as usize, match rng.below(3) { 0 => 0, 1 => fix(premul_pixel(&mut rng)), _ => fix(premul_pixel(&mut rng) & 0x7fffffff) })).collect();
+            let bytes = rng.chance(0.5);
+            for (k, v) in &spots {
+                if bytes {
+                    dt.get_data_u8_mut()[4 * k..4 * k + 4].copy_from_slice(&v.to_ne_bytes());
+                } else {
+                    dt.get_data_mut()[*k] = *v;
+                }
+            }
+            log.push(format!("{} pixels written through {}", spots.len(), if bytes { "get_data_u8_mut" } else { "get_data_mut" }));
+            let before = dt.get_data().to_vec();
+            // a call that draws over them
+            let src_c = if rng.chance(0.5) { premul_pixel(&mut rng) | 0xff000000 } else { fix(premul_pixel(&mut rng)) };
+            let o = opts(if rng.chance(0.7) { BlendMode::SrcOver } else { random_mode(&mut rng) }, if rng.chance(0.7) { 1. } else { random_alpha(&mut rng) }, true);
+            let (iw, ih) = (rng.int(1, w as i64) as i32, rng.int(1, h as i64) as i32);
+            let img = Img { w: iw, h: ih, data: random_image_data(&mut rng, iw, ih) };
+            let call: Op = match rng.below(4) {
+                0 => Op::FillRect(rng.int(-1, 2) as f32, rng.int(-1, 2) as f32, w as f32, h as f32, SrcSpec::Solid(fix(src_c)), o),
+                1 => Op::DrawImageAt(rng.int(-1, 2) as f32, rng.int(-1, 2) as f32, img, o),
+                2 => Op::Fill(small_shape(&mut rng, w, h), SrcSpec::Solid(fix(src_c)), o),
+                _ => Op::FillRect(0.5, 0.5, w as f32 - 1., h as f32 - 1., SrcSpec::Solid(fix(src_c)), o),
+            };
+            call.apply(&mut dt);
+            log.push(format!("{}", call.name()));
+            st.add("calls_after_raw_writes", 1);
+            let color_mode = o.blend_mode == BlendMode::Color;
+            if let Some(k) = dt.get_data().iter().position(|p| !valid_premul(*p)) {
+                if color_mode && ctx.known.active("C18", "sw-composite-color-blend-invalid") {
+                    co.known.push(("C18:sw-composite-color-blend-invalid".to_string(), format!("{} with Color gives {}", call.name(), hex(dt.get_data()[k]))));
+                } else {
+                    co.viol("C18", format!("round {}: {} leaves pixel #{} = {} (a colour channel exceeds alpha); it held the valid pixel {}", round, call.name(), k, hex(dt.get_data()[k]), hex(before[k])));
+                }
+                break;
+            }
+            // the same call on a fresh target holding the same pixels gives the same pixels
+            let mut twin = DrawTarget::from_vec(w, h, before.clone());
+            call.apply(&mut twin);
+            if let Some(d) = super::c14::first_diff(dt.get_data(), twin.get_data(), w) {
+                co.viol("C18", format!("round {}: {} after pixels were written through a view differs from the same call on a fresh target holding the same pixels at {}", round, call.name(), d));
+                break;
+            }
+        }
+        co.hash = crate::prng::hash_str(&format!("{:?}{:?}", log, dt.get_data()));
+        co.nontrivial = true;
+        if want || !co.violations.is_empty() {
+            co.desc = Some(J::Arr(log.iter().map(|l| J::s(l)).collect()));
+        }
+        co
+    });
+}
+
 pub fn run(ctx: &Ctx) -> Outcome {
     let q = ctx.quick();
     let secs = if q { 60. } else { 600. };
@@ -735,6 +842,7 @@ pub fn run(ctx: &Ctx) -> Outcome {
             sub_formula_validity(ctx, &mut out, ctx.n(1_000_000, 20_000_000));
             sub_layer_scenarios(ctx, &mut out, ctx.n(6_000, 100_000), 60.);
             sub_surface_blits_validity(ctx, &mut out, ctx.n(40_000, 800_000));
+            sub_raw_writes_between_calls(ctx, &mut out, ctx.n(20_000, 400_000));
             sub_opacity_lab(ctx, &mut out);
             sub_mask_lab(ctx, &mut out, ctx.n(10_000, 200_000), secs / 2.);
             let p = SceneProfile { max_size: 12, clips: 0.6, layers: 0.8, transforms: 0.3, solid_weight: 4, ops: (3, 10) };
